@@ -403,6 +403,14 @@ def registry():
 
 
 def main(argv):
+    try:
+        return main1(argv)
+    except HarnessError as e:
+        log("vcheck: harness error:", e)
+        return 2
+
+
+def main1(argv):
     if len(argv) < 2:
         print(__doc__)
         return 2
